@@ -2,7 +2,7 @@ import PprofVerif.Lemmas.Crash
 import PprofVerif.Lemmas.ComposeCodec
 import PprofVerif.Lemmas.ComposeParse
 import PprofVerif.Model.Copier
-import PprofVerif.Lemmas.ComposeTree
+import PprofVerif.Lemmas.TrimTreeMain
 /-!
 # C09 — No profile content, option value or typed command crashes pprof
 
@@ -226,34 +226,43 @@ example : Parse.parseData Parse.sampleBytes = .ok Parse.sampleParsed ∧
     ∀ x, Codec.preEncode Parse.sampleParsed = .ok x → Codec.EncSizes x :=
   ⟨Parse.parseData_sampleBytes, Parse.sampleParsed_encSizes⟩
 
-/-! ## composed with C04/C05's graph model: `TrimTree`'s consistency panics
+/-! ## composed with C05's TrimTree model: the consistency panics of `TrimTree`
 
 Full statement planned in DESIGN (`graph_internal_panics_unreachable`): none of the explicit
 panics of internal/graph — "TrimTree only works on trees", "Get parent assertion failed",
-"asymmetric edges" — is reachable from a report.  PARTIAL: proved for the two `TrimTree` panics
-(`Model/TreeChecks.lean`) on every graph `newTree` builds.  The "asymmetric edges" panic of
-`AddToEdgeDiv` compares the two Go maps `n.Out[to]` and `to.In[n]`; the graph model
-(`Model/Graph.lean`) keeps a single edge table keyed by (src, dest), so an asymmetry cannot even be
-expressed in it — that panic stays with the generative campaign. -/
+"asymmetric edges" — is reachable from a report.  PARTIAL: proved for the two `TrimTree` panics, on
+C05's model of `Graph.TrimTree` (`Model/TrimTree.lean`: the loop over `g.Nodes` with both `panic`
+sites, re-parenting, `RemoveRedundantEdges`; tied to graph.go by C05's correspondence check),
+applied to every tree `newTree` builds — the only graphs report.go hands to `TrimTree`.  The
+"asymmetric edges" panic of `AddToEdgeDiv` compares the two Go maps `n.Out[to]` and `to.In[n]`
+while `graph.New` runs; the model of `graph.New` (`Model/Graph.lean`) keeps a single edge table
+keyed by (src, dest), so an asymmetry cannot be expressed there — that panic stays with the
+generative campaign. -/
 
-/-- For every sample list and every kept set, in the graph `newTree` builds every node has at most
-one in-edge (its parent is its path without the last frame), hence both consistency tests of
-`TrimTree` pass on it. -/
-theorem graph_internal_panics_unreachable_partial {κ : Type} [DecidableEq κ] (kept : List κ → Bool)
-    (ss : List (GSpec.GSample κ)) :
-    (∀ n, (Graph.inEdges (Graph.newTree ss) n).length ≤ 1) ∧
-    Graph.trimTreeChecks kept (Graph.newTree ss) = .ok () :=
-  ⟨(Graph.newTree_shaped ss).inEdges_le_one,
-   Graph.trimTreeChecks_ok_of_inEdges kept _ (Graph.newTree_shaped ss).inEdges_le_one⟩
+/-- `TrimTree` on a call tree never panics (nor errs): for every sample list, every kept set,
+every order in which the caller left `g.Nodes`, and every `EdgeMap.Sort` that returns a
+permutation, C05's `trimNewTree` returns a state. -/
+theorem graph_internal_panics_unreachable_partial {κ : Type} [DecidableEq κ]
+    (sortIn : TrimTree.ETable (List κ) → TrimTree.ETable (List κ)) (hsort : ∀ l, (sortIn l).Perm l)
+    (K : List κ → Bool) (ss : List (GSpec.GSample κ)) (nodes : List (List κ × Graph.NodeAcc))
+    (hperm : nodes.Perm (Graph.newTree ss).shownNodes) :
+    (∀ site, TrimTree.trimNewTree sortIn K (Graph.newTree ss) nodes ≠ .panic site) ∧
+    ∃ st, TrimTree.trimNewTree sortIn K (Graph.newTree ss) nodes = .ok st := by
+  obtain ⟨st, hs, _⟩ := TrimTree.trimNewTree_ok sortIn hsort K ss nodes hperm
+  refine ⟨?_, st, hs⟩
+  intro site hpan
+  rw [hs] at hpan
+  cases hpan
 
-/-- The tests are real: on a graph that is not a tree (node 3 reached from 1 and from 2) the
-first one fires. -/
-theorem trimTreeChecks_panics_on_dag :
-    Graph.trimTreeChecks (fun _ => true)
-      (⟨[(1, ⟨0, 0⟩), (2, ⟨0, 0⟩), (3, ⟨0, 0⟩)], [((1, 3), ⟨0, false⟩), ((2, 3), ⟨0, false⟩)]⟩ : Graph.GState Nat) =
-      .panic "TrimTree only works on trees" := by decide
+/-- The first test is real: on a graph that is not a tree (node 3 reached from 1 and from 2) the
+loop body panics. -/
+theorem trimTree_panics_on_dag :
+    TrimTree.stepNode (fun _ => true)
+      (⟨[], [((1, 3), ⟨0, false⟩), ((2, 3), ⟨0, false⟩)], [((1, 3), ⟨0, false⟩), ((2, 3), ⟨0, false⟩)]⟩ : TrimTree.TState Nat)
+      (3, ⟨0, 0⟩) = .panic "TrimTree only works on trees" := by rfl
 
--- non-vacuity: two samples sharing a prefix give a tree with a branching node
+-- non-vacuity: two samples sharing a prefix give a tree with a branching node; its listed nodes
+-- in their own order are an admissible `nodes`
 example : (Graph.newTree [({ frames := [1, 2], w := 3, d := 0 } : GSpec.GSample Nat), { frames := [1, 3], w := 4, d := 0 }]).edges.map (·.1) =
     [([1], [1, 2]), ([1], [1, 3])] := by decide
 
